@@ -51,3 +51,28 @@ Lemma while_true_S {R L St} k (body:St -> ctl R St St) s : @while_true R L St (S
   | Next s' | Continue s' => while_true k body s'
   | Break s' => Next s' | Return r => Return r | Raise => Raise | NoFuel => NoFuel end.
 Proof. reflexivity. Qed.
+
+(* ---- the literals of a world (PreOCF.symbolize_bitvec) pin the solver to that world ---- *)
+Section WorldLits.
+Variable n : nat.
+Notation W := (worlds n).
+Lemma lits_hold : forall w w' pre, length w' = length w ->
+  forallb (eval (pre ++ w')) (world_lits_from (length pre) w) = beq w' w.
+Proof. induction w as [|b w IH]; intros [|b' w'] pre Hl; simpl in Hl; try discriminate; [reflexivity|].
+  injection Hl as Hl. cbn [world_lits_from forallb beq].
+  assert (E: eval (pre ++ b' :: w') (if b then FVar (length pre) else FNot (FVar (length pre))) = Bool.eqb b' b).
+  { destruct b; simpl; rewrite app_nth2, Nat.sub_diag by lia; simpl; destruct b'; reflexivity. }
+  rewrite E. f_equal.
+  specialize (IH w' (pre ++ [b']) Hl). rewrite <- app_assoc in IH. simpl in IH.
+  rewrite app_length in IH. simpl in IH. rewrite Nat.add_1_r in IH. exact IH. Qed.
+Lemma world_lits_hold w w' : length w' = length w -> forallb (eval w') (world_lits w) = beq w' w.
+Proof. intros Hl. apply (lits_hold w w' [] Hl). Qed.
+Lemma existsb_point (g:world -> bool) w : In w W -> existsb (fun w' => g w' && beq w' w) W = g w.
+Proof. intros Hw. destruct (g w) eqn:Eg.
+  - apply existsb_exists. exists w. split; [exact Hw|]. rewrite Eg, beq_refl. reflexivity.
+  - destruct (existsb _ W) eqn:E; [|reflexivity]. apply existsb_exists in E as [w' [_ H]].
+    apply andb_true_iff in H as [H1 H2]. apply beq_eq in H2. subst. congruence. Qed.
+Lemma s_solve_ext_in s p : (forall w, In w W -> s_holds s w = p w) -> s_solve n s = existsb p W.
+Proof. intros H. unfold s_solve. apply existsb_ext_in. exact H. Qed.
+
+End WorldLits.
